@@ -219,6 +219,10 @@ func rulesC01(c *Ctx) {
 	// ---- R11 the cleaner strips the separator from Clean's output; R12 no remembered nodes ----
 	ruleCleanerOrder(c, "R11")
 	ruleNoNodeMemo(c, "R12")
+	// ---- R13 copies look the source up before they change the tree ----
+	c.Floor("R13", ruleCopyLooksUpSourceFirst(c, "R13", methods), 3)
+	// ---- R14 one node per name: an insert follows a miss of that very name (same rule as C09.L4) ----
+	c.Floor("R14", checkThenInsert(c, le, "R14", c.P.PkgFuncs(memfsPkg), dirT, "index", "mu"), 2)
 }
 
 func sortedKeys(m map[string]*ssa.Function) []string {
